@@ -8,11 +8,12 @@ LEVEL_NOTE = ("Coq theorem C14_holds, for every number of processes and every in
               "produced only by the holder; a process whose bind is refused does nothing but end; after the holder's exit or kill the next process acquires at once. Partial: the OS provides "
               "the bind (exclusive per address, freed at process death). Tied by real processes: a holder parked right after acquisition (verif::point), 2-6 contenders of all four APIs at "
               "random offsets (must exit non-zero with a lock error, start no executable, leave the output directory byte-identical), holder ended by exit / failure / SIGKILL followed by "
-              "an immediate invocation (must succeed), and simultaneous starts (exactly one may pass).")
+              "an immediate invocation (must succeed), simultaneous starts (exactly one may pass), and briefly held locks (a contender whose logged acquisition attempt falls inside the "
+              "holder's observed tenure must fail even though the holder releases 0.3-0.8 s later).")
 TRUSTED = ["Coq 8.16.1 kernel; no axioms", "POSIX: bind on a listening address is exclusive; the listener is released when the process dies", "hooks: after_lock_* points (guarded)",
            "that each API's first action is the acquisition is what the tie checks (the model's op lists start with Start = bind)", "modelled, not verified: the Rust source"]
 RULE = ("rounds: holder API in {run, checkpoint update, checkpoint delete, out delete}, 2-6 contenders with random APIs and start offsets 0-300 ms, holder end in {exit, failing run, SIGKILL}; "
-        "plus simultaneous-start rounds of 3-6 processes; non-trivial = every round (>=2 contenders); distinct by round parameters")
+        "plus simultaneous-start rounds of 3-6 processes and brief-hold rounds (holder parked 300-800 ms, one contender with -v whose 'Acquiring lock' timestamp is compared with the tenure); non-trivial = every round (>=2 contenders); distinct by round parameters")
 
 CFG = {"targets": [{"path": "a"}, {"path": "b", "uses": ["a"]}]}
 APIS = {"run": ["run", "-c", "build"], "checkpoint_update": ["checkpoint", "update"], "checkpoint_delete": ["checkpoint", "delete"], "out_delete": ["out", "delete", "--all"]}
@@ -103,6 +104,60 @@ def holder_round(ctx, rng, holder_api, n_cont, end_kind):
     finally:
         rr.close()
 
+def acquiring_at(stderr):
+    """wall-clock time of the contender's 'Acquiring lock' record (it runs with -v)"""
+    import datetime
+    for line in stderr.decode("utf-8", "replace").splitlines():
+        try:
+            e = json.loads(line)
+            if e.get("message") == "Acquiring lock":
+                ts = e["timestamp"]; head, frac = ts.split(".")
+                return datetime.datetime.strptime(head, "%Y-%m-%dT%H:%M:%S").replace(tzinfo=datetime.timezone.utc).timestamp() + float("0." + frac.split("+")[0])
+        except Exception: pass
+    return None
+
+def brief_hold_round(ctx, rng, holder_api, hold_ms):
+    """The holder releases the lock shortly AFTER the contender tried to acquire it: the contender must still have failed (at once,
+    with a lock error, without acting) - waiting behind the holder and then going ahead is not what the property allows."""
+    rr = runscen.RunRepo(ctx, CFG, commands=["build"])
+    try:
+        vlib.monorail(rr.repo, "checkpoint", "update"); rr.clear_traces()
+        rr.script = {"*": {"exit": 0}}; rr.write_script()
+        h = spawn(rr, holder_api, "after_lock_%s=sleep:%d" % (holder_api, hold_ms))
+        t0 = time.time()
+        while not listening(rr.lock_port) and time.time() - t0 < 10: time.sleep(0.005)
+        case = {"brief_hold": holder_api, "hold_ms": hold_ms}
+        if not listening(rr.lock_port):
+            h.kill(); h.communicate(); ctx.record(case, True, False, False, True, detail={"what": "holder never bound the lock address"}); return
+        t_listen = time.time()
+        api = rng.choice(["checkpoint_update", "checkpoint_delete", "out_delete", "run"])
+        before = snapshot(rr.out_dir())
+        env = dict(os.environ); env.update(vlib.GIT_ENV); env.update(rr.env())
+        c = subprocess.Popen([vlib.BIN_MONORAIL, "-v", "-f", os.path.join(rr.repo, "Monorail.json")] + APIS[api], cwd=rr.repo, env=env, stdout=subprocess.PIPE, stderr=subprocess.PIPE)
+        last_held = t_listen
+        while h.poll() is None and time.time() - t0 < 30:
+            t = time.time()
+            if listening(rr.lock_port) and h.poll() is None: last_held = t
+            time.sleep(0.005)
+        try: so, se = c.communicate(timeout=30)
+        except subprocess.TimeoutExpired: c.kill(); so, se = c.communicate()
+        h.communicate()
+        t_a = acquiring_at(so + b"\n" + se)      # tracing records go to stdout
+        contended = t_a is not None and t_listen < t_a < last_held - 0.02      # it tried while the holder demonstrably still held the lock
+        refused = c.returncode not in (0, None) and lock_error(se)
+        ok = (not contended) or refused
+        # model: holder starts (acquires), contender starts (refused, ends), holder exits
+        v = ctx.model.call("lock", 2, [[0, 0, 1], [0, 1, 1], [1, 0, 0]], [1] if refused else [], [0])
+        agree = bool(v[2]) if contended else True
+        ctx.count("brief_hold_" + ("contended" if contended else "not_contended"))
+        ctx.record(case, contended, agree, ok, contended,
+                   sample={"holder": holder_api, "hold_ms": hold_ms, "contender": api, "exit_code": c.returncode} if contended else None,
+                   detail={"what": "a contender that tried to acquire while the lock was held must exit non-zero with a lock error, even when the holder releases a moment later",
+                           "contender": api, "rc": c.returncode, "lock_error": lock_error(se), "acquiring_at": t_a, "held_from": t_listen, "held_until_at_least": last_held,
+                           "stderr": se.decode("utf-8", "replace")[-400:]})
+    finally:
+        rr.close()
+
 def simultaneous_round(ctx, rng, n):
     rr = runscen.RunRepo(ctx, CFG, commands=["build"])
     try:
@@ -132,11 +187,14 @@ def run(ctx, scale):
     for _ in range(reps * scale):
         for api, end in rounds:
             holder_round(ctx, rng, api, rng.randint(2, 6), end)
+        for api in (["checkpoint_update", "run"] if ctx.quick() else list(APIS)):
+            brief_hold_round(ctx, rng, api, rng.choice([300, 450, 600, 800]))
         for n in ([3, 5] if ctx.quick() else [3, 4, 5, 6]):
             simultaneous_round(ctx, rng, n)
 
 def replay(ctx, c):
     c = c.get("case", c)
-    if "simultaneous" in c: simultaneous_round(ctx, ctx.rng, c["simultaneous"])
+    if "brief_hold" in c: brief_hold_round(ctx, ctx.rng, c["brief_hold"], c["hold_ms"])
+    elif "simultaneous" in c: simultaneous_round(ctx, ctx.rng, c["simultaneous"])
     else: holder_round(ctx, ctx.rng, c["holder"], c["contenders"], c["end"])
     return {"spec_failures": [d for _, d in ctx.spec_failures][:3], "disagreements": [d for _, d in ctx.tie_breaks][:3]}
